@@ -208,10 +208,10 @@ def run(ctx):
                  ('X 3 3 %d %d' % (big, cap), 'cap=130 free=5,129 hold=0:64'),
                  ('X 4 2 %d %d' % (big, cap), 'cap=130 free=70 hold=0:64,1:5'),
                  ('X 2 5 %d %d' % (big, cap), 'cap=5 free=0,2,3 hold=1:1')]
-    nw = 10000 if T else 400
-    runs += [('W 4 5 %d %d 0' % (nw, ctx.seed + 1), 'cap=12'),
+    nw = 10000 if T else 300
+    runs += [('W 4 4 %d %d 0' % (nw, ctx.seed + 1), 'cap=12 free=0,5 hold=0:1,1:2,2:3,3:4'),
              ('W 4 4 %d %d 0' % (nw, ctx.seed + 2), 'cap=200 free=0,63,64,100,128,199 hold=0:1,1:65,2:129,3:190'),
-             ('W 3 6 %d %d 0' % (nw, ctx.seed + 3), 'cap=66 free=64 hold=0:0,1:1,2:65')]
+             ('W 3 5 %d %d 0' % (nw, ctx.seed + 3), 'cap=66 free=64 hold=0:0,1:1,2:65')]
     results = explore(ctx, exe, runs)
     lines, seen = [], set()
     for cmd, cfg, st, hists, viols in results:
